@@ -49,7 +49,7 @@ def execute(ctx, pid, prefix, events, with_vel, jobs_mc, nrand, max_mc, post=Non
     case = 0
     n_emitted = 0
     for module, cfg in jobs_mc:
-        res = ctx.mc(module, cfg, timeout=5400)
+        res = ctx.mc(module, cfg, timeout=5400, heap=ctx.pick("3g", "6g"))
         insts = res.printed
         n_emitted += len(insts)
         if len(insts) > max_mc:   # deterministic thinning (TLC's print order depends on worker scheduling)
@@ -70,7 +70,7 @@ def execute(ctx, pid, prefix, events, with_vel, jobs_mc, nrand, max_mc, post=Non
     bad = [r for r in results if r[1] is None]
     if bad:
         raise core.MachineryFailure(f"driver failed on {len(bad)} case(s); first: {bad[0][2]}")
-    verdicts = ctx.validate(TRACE, [(c, evs) for c, evs, _ in results], timeout=5400)
+    verdicts = ctx.validate(TRACE, [(c, evs) for c, evs, _ in results], timeout=5400, heap="2g")
     relay(ctx, verdicts, prefix, events)
     if post:
         post(verdicts)
@@ -82,6 +82,7 @@ def execute(ctx, pid, prefix, events, with_vel, jobs_mc, nrand, max_mc, post=Non
 
 def relay(ctx, verdicts, prefix, events):
     """keep this property's clauses / events; relay drift notes"""
+    seen = set()
     for cid in list(verdicts):
         keep = []
         for vj in verdicts[cid]:
@@ -89,15 +90,17 @@ def relay(ctx, verdicts, prefix, events):
                 continue
             vj["fails"] = [c for c in vj["fails"] if c.startswith(prefix)]
             vj["hits"] = [c for c in vj.get("hits", []) if c.startswith(prefix)]
+            vj["kf"] = [k for k in vj.get("kf", []) if k.split(":")[1].startswith(prefix)]
             for d in vj.get("drift", []):
-                if d.startswith(prefix):
+                if d.startswith(prefix) and d not in seen:
+                    seen.add(d)
                     ctx.note(f"model_drift {d} (first seen in case {cid})")
             keep.append(vj)
         verdicts[cid] = keep
 
 
 def run(ctx):
-    execute(ctx, PID, PREFIX, EVENTS, WITH_VEL, mc_jobs(ctx), ctx.pick(400, 12000), ctx.pick(1500, 40000))
+    execute(ctx, PID, PREFIX, EVENTS, WITH_VEL, mc_jobs(ctx), ctx.pick(350, 12000), ctx.pick(1200, 40000))
     ctx.rule = ("TLC enumerates N junction sites x displacement stencil x all numberings of both frames x guesses and "
                 "checks I => D; a sample of the leaves (every instance whose hash matches; denser where the premise holds, "
                 "where a vertex is mapped to a wrong successor, where the step is skipped) is rebuilt as real Frames whose "
